@@ -872,9 +872,19 @@ func checkExtractEntry(p *core.Program, r *core.Report, model *lean.Model) {
 // into a file that is truncated first — os.Create, os.WriteFile, or os.OpenFile with O_TRUNC and without O_APPEND — so that
 // the file's contents are a function of the circuit dimensions alone and not of what the path held before.
 func checkExtractOutputFile(p *core.Program, r *core.Report) {
+	checkOutputFilesTruncated(p, r, "O17.9", "the model", "extract-circuit")
+}
+
+// checkOutputFilesTruncated: every file-creating call reachable from the named commands (within package main) creates or
+// truncates the file — no stale tail of an earlier, longer output survives, nothing is appended.
+func checkOutputFilesTruncated(p *core.Program, r *core.Report, rule, what string, names ...string) {
 	ix := indexFuncs(p)
+	want := map[string]bool{}
+	for _, n := range names {
+		want[n] = true
+	}
 	for _, c := range cliCommands(p) {
-		if c.Name != "extract-circuit" || c.Action.Node == nil {
+		if !want[c.Name] || c.Action.Node == nil {
 			continue
 		}
 		n := 0
@@ -909,10 +919,10 @@ func checkExtractOutputFile(p *core.Program, r *core.Report) {
 							_ = oAppend
 							_ = oTrunc
 							if fl&int64(osFlag(p, "O_TRUNC")) == 0 {
-								bad = append(bad, "os.OpenFile at "+p.Pos(call.Pos())+" without O_TRUNC: a longer file already at the path keeps its tail after the new model")
+								bad = append(bad, "os.OpenFile at "+p.Pos(call.Pos())+" without O_TRUNC: a longer file already at the path keeps its tail after the new content")
 							}
 							if fl&int64(osFlag(p, "O_APPEND")) != 0 {
-								bad = append(bad, "os.OpenFile at "+p.Pos(call.Pos())+" with O_APPEND: the model is added to whatever the path held")
+								bad = append(bad, "os.OpenFile at "+p.Pos(call.Pos())+" with O_APPEND: the output is added to whatever the path held")
 							}
 						}
 					}
@@ -920,16 +930,16 @@ func checkExtractOutputFile(p *core.Program, r *core.Report) {
 				return true
 			})
 		}
-		cn := "main.cmd:extract-circuit: output file is truncated before the model is written"
+		cn := "main.cmd:" + c.Name + ": output file is truncated before " + what + " is written"
 		switch {
 		case len(bad) > 0:
-			r.Violation("O17.9", cn, pos, "%s", strings.Join(bad, "; "))
+			r.Violation(rule, cn, pos, "%s", strings.Join(bad, "; "))
 		case n == 0:
-			r.Undecided("O17.9", cn, pos, "no os.Create / os.OpenFile / os.WriteFile found in the command: cannot tell how the output file is opened")
+			r.Undecided(rule, cn, pos, "no os.Create / os.OpenFile / os.WriteFile found in the command: cannot tell how the output file is opened")
 		default:
-			r.OK("O17.9", cn, pos, "%d file-creation site(s), each truncating", n)
+			r.OK(rule, cn, pos, "%d file-creation site(s), each truncating", n)
 		}
-		r.Count("extract-circuit output sites", n)
+		r.Count(c.Name+" output sites", n)
 	}
 }
 
